@@ -99,7 +99,7 @@ SPEC = dict(
         "absent/garbage `type` is outside the property text; the model and the harness still agree on it (stream error + "
         "disconnect when no extension claims the stanza)",
         "observed, modelled, not a C08 matter: QXmppBlockingManager answers a DECRYPTED block/unblock request in the clear (its "
-        "handler does not pass the e2ee metadata on); with an incoming transfer job a result without from and id carrying "
+        "handler does not pass the e2ee metadata on; one-line fix fixes/C08-blocking-reply-keeps-e2ee.diff, a C17/C07 matter); with an incoming transfer job a result without from and id carrying "
         "bytestream hosts makes the transfer manager send a SOCKS5 offer to the job's peer (empty == empty proxy match)",
     ],
     level_text="Theorems, all for a stanza with any number of children: (1) lifting lemma for EVERY extension list, session "
